@@ -56,7 +56,9 @@ Definition mkleaf (x : lx) (h : heap) : leaf :=
   | XUnify a b => match unify_x ufuel h a b with
                   | UOof | UCyc => LRaise
                   | _ => LGen (mk_unify_x h a b) end
-  | XArrays xs ys => LGen (GArrFresh xs ys)
+  | XArrays xs ys => match unify_arrays_x ufuel h xs ys with
+                     | UOof | UCyc => LRaise
+                     | _ => LGen (GArrFresh xs ys) end
   | XOne => LGen (GSucc false)
   | XRaise => LRaise
   end.
@@ -79,7 +81,7 @@ Lemma L_new x h : linv h (mkleaf x h) h.
 Proof.
   destruct x as [a b|xs ys| |]; cbn [mkleaf].
   - rewrite mk_unify_x_eq. destruct (unify_x ufuel h a b); cbn [linv]; auto; left; split; auto; apply mk_unify_fresh.
-  - left. split; [exact I|reflexivity].
+  - destruct (unify_arrays_x ufuel h xs ys); cbn [linv]; auto; left; split; auto; exact I.
   - left. split; [exact I|reflexivity].
   - reflexivity.
 Qed.
@@ -241,9 +243,11 @@ Fixpoint shift_term (g : nat) (t : term) : term :=
   end.
 Definition fact := (nat * list term)%type.          (* number of variables, argument values *)
 
+Definition clear_acc : nat -> fr -> heap -> fr :=
+  fun _ e _ => {| f_env := f_env e; f_nxt := f_nxt e; f_fl := f_fl e; f_acc := []; f_aux := f_aux e |}.
 Fixpoint facts_code (fs : list fact) (args : list term) : mcode :=
   match fs with
-  | [] => CSkip
+  | [] => CAssign clear_acc
   | (m, vals) :: r =>
       CSeq (CAssign (fun g e _ => {| f_env := f_env e; f_nxt := g + m; f_fl := f_fl e;
                                      f_acc := map (shift_term g) vals; f_aux := f_aux e |}))
